@@ -116,6 +116,7 @@ func c04run(cs c04case) (sig, detail string) {
 			case "refresh-round":
 				// the periodic refresh (virtual 2 minutes) plus two minimum-rate pauses, so that a refresh
 				// that first picked the dead seed host can retry with the next one
+				w.s.RefreshRound()
 				sched.AdvanceTime(int64(slotsRefFreq) + 1)
 				sched.WaitQuiescent()
 				w.s.RefreshRound()
